@@ -9,8 +9,10 @@
    excluded.  In the first part the candidate set is the brute-force specification of FileSet.find; the EXTENSION
    below derives it from the algorithmic model of find (property C01: directory walk, look-back, pruning) on trees
    (closest_end_to_end, composed_is_flat_model), fixes which of several allowed files the code returns
-   (search_first_in_order), states the edges of the window and the dispatch of fileset[...]. *)
-From Coq Require Import ZArith List Bool Ascii String.
+   (search_first_in_order), states the edges of the window and the dispatch of fileset[...].  EXTENSION 2: filters
+   with several entries over several user placeholders (all_filters_apply, *_order_irrelevant, the tie between the
+   string vocabulary of the flat listing and the numbered one of C01: encoded_filters_agree, dict_composed_is_flat). *)
+From Coq Require Import ZArith List Bool Ascii String Permutation.
 From Typhon Require Import Base.Calendar Base.CalendarProofs Model.C02_template Proofs.C02_template
   Model.C16_closest Proofs.C16_closest Model.C16_tree Proofs.C16_tree.
 From Typhon Require Model.C03_tree Model.C01_find Proofs.C01_find.
@@ -281,6 +283,106 @@ Theorem getitem_meets_spec : forall parse tp fill fs xn xt item,
   end.
 Proof. exact getitem_meets_spec_thm. Qed.
 
+(* ====================================================================================================
+   EXTENSION 2: filters with SEVERAL entries over several user placeholders (Model/C16_tree.v: fdict, split_dict,
+   dict_query, entry_ok).  A filters dict is a list of entries in the order of the dict: (true, k, vs) is the key
+   "!k" (black list), (false, k, vs) the key "k" (white list), vs the listed values.  FileSet.find splits the dict
+   into its white and its black part (split_dict) and FileSet._check_file walks the black part. *)
+
+(* a file is a candidate iff it is a file of the fileset in the neighbourhood, not excluded, and EVERY entry of the
+   dict lets it pass -- white lists and black lists alike, whatever their number and order *)
+Theorem all_filters_apply : forall fs d xn xt P t f,
+  candidate fs (dict_query d xn xt) P t f <->
+  In f fs /\ near P t f /\ excluded (dict_query d xn xt) f = false /\
+  forall e, In e d -> entry_ok (fattrs f) e = true.
+Proof. exact all_filters_apply_thm. Qed.
+
+(* the same for white and black lists however they were obtained *)
+Theorem passes_every_list : forall q f,
+  passes q f = true <->
+  (q_filtered q = true ->
+   (forall w, In w (q_white q) -> white_ok (fattrs f) w = true) /\
+   (forall b, In b (q_black q) -> black_ok (fattrs f) b = true)).
+Proof. exact passes_all_thm. Qed.
+
+(* the order of the entries is irrelevant: to the verdict on every file, to what the checker accepts, to the
+   specification and to the answer of the model *)
+Theorem filter_order_irrelevant : forall flt w w' b b' xn xt,
+  Permutation w w' -> Permutation b b' ->
+  let q := Query flt w b xn xt in let q' := Query flt w' b' xn xt in
+  (forall f, passes q f = passes q' f) /\
+  (forall fs P t r, closest_ok fs q P t r = closest_ok fs q' P t r) /\
+  (forall fs P t r, ClosestSpec fs q P t r <-> ClosestSpec fs q' P t r) /\
+  (forall tp fill fs t, closest_model tp fill fs q t = closest_model tp fill fs q' t).
+Proof. exact filter_order_irrelevant_thm. Qed.
+
+Theorem dict_order_irrelevant : forall d d' xn xt,
+  Permutation d d' ->
+  (forall f, passes (dict_query d xn xt) f = passes (dict_query d' xn xt) f) /\
+  (forall fs P t r, ClosestSpec fs (dict_query d xn xt) P t r <-> ClosestSpec fs (dict_query d' xn xt) P t r) /\
+  (forall tp fill fs t, closest_model tp fill fs (dict_query d xn xt) t = closest_model tp fill fs (dict_query d' xn xt) t).
+Proof. exact dict_order_irrelevant_thm. Qed.
+
+(* on the tree (C01's vocabulary: placeholders and values numbered; zentry_ok = one entry lets the file pass): a
+   candidate = coverage meets the window, not excluded, EVERY entry lets it pass *)
+Theorem tree_all_filters_apply : forall lay t d ex f,
+  let w := fst (zsplit d) in let b := snd (zsplit d) in
+  tcand lay t w b ex f = true <->
+  F.t0 f < snd (window lay t) /\ fst (window lay t) <= F.t1 f /\
+  F.excluded_spec (window_query lay t w b ex) f = false /\ forall e, In e d -> zentry_ok f e = true.
+Proof. exact tree_all_filters_apply_thm. Qed.
+
+(* ... and the composed model (C01's directory walk, whose white lists also steer the walk) answers the same for every
+   order of the white lists and of the black lists *)
+Theorem tree_filter_order_irrelevant : forall lay fs exact filtered w w' b b' ex t,
+  Permutation w w' -> Permutation b b' ->
+  tree_closest lay fs exact filtered w b ex t = tree_closest lay fs exact filtered w' b' ex t /\
+  forall f, tcand lay t w b ex f = tcand lay t w' b' ex f.
+Proof. exact tree_filter_order_irrelevant_thm. Qed.
+
+(* the two vocabularies.  For every numbering kc of the placeholder names and vc of the values that is injective on
+   the names in play (K) and, per placeholder, on its values (V), with no value a proper prefix of another (black
+   lists are re.match: prefix tests), a dict and its numbered image give every file the same verdict: the filter part
+   of `agrees` (composed_is_flat_model) holds by construction, for any number of entries *)
+Theorem encoded_filters_agree : forall (kc : str -> Z) (vc : str -> str -> Z) (K : str -> Prop) (V : str -> str -> Prop),
+  (forall x y, K x -> K y -> kc x = kc y -> x = y) ->
+  (forall k x y, V k x -> V k y -> vc k x = vc k y -> x = y) ->
+  (forall k p v, V k p -> V k v -> is_prefix p v = true -> p = v) ->
+  forall d xn xt lay t ex g f,
+  F.attrs f = enc_attrs kc vc (fattrs g) -> attrs_known K V (fattrs g) -> Forall (entry_known K V) d ->
+  passes (dict_query d xn xt) g =
+  F.passes (window_query lay t (fst (zsplit (map (enc_entry kc vc) d))) (snd (zsplit (map (enc_entry kc vc) d))) ex) f.
+Proof. exact encoded_filters_agree_thm. Qed.
+
+(* the numbering the correspondence uses (position of the placeholder in a list of pools, position of the value in
+   its pool) meets these hypotheses whenever every pool is prefix-free (a boolean) *)
+Theorem pool_numbering_ok : forall ps, pools_ok ps = true ->
+  (forall x y, pool_K ps x -> pool_K ps y -> pool_kc ps x = pool_kc ps y -> x = y) /\
+  (forall k x y, pool_V ps k x -> pool_V ps k y -> pool_vc ps k x = pool_vc ps k y -> x = y) /\
+  (forall k p v, pool_V ps k p -> pool_V ps k v -> is_prefix p v = true -> p = v).
+Proof. exact pool_numbering_ok_thm. Qed.
+
+(* composition with C01's find for a dict of several entries: the flat model the correspondence runs under the dict IS
+   the composed tree model (short cut, window, C01's directory walk, first covering / first nearest) under the numbered
+   white and black lists; with closest_end_to_end the answer is the covering-or-nearest file among the files passing
+   ALL entries *)
+Theorem dict_composed_is_flat : forall (kc : str -> Z) (vc : str -> str -> Z) (K : str -> Prop) (V : str -> str -> Prop)
+  tp fill lay fs emb d xn xt t,
+  (forall x y, K x -> K y -> kc x = kc y -> x = y) ->
+  (forall k x y, V k x -> V k y -> vc k x = vc k y -> x = y) ->
+  (forall k p v, V k p -> V k v -> is_prefix p v = true -> p = v) ->
+  let zd := map (enc_entry kc vc) d in
+  let w := fst (zsplit zd) in let b := snd (zsplit zd) in
+  fields_of_layout tp lay -> tree_hyps lay fs -> window_ok lay t -> Forall (fun '(a, b) => a <= b) xt ->
+  (forall f, In f fs ->
+     ft0 (emb f) = F.t0 f /\ ft1 (emb f) = F.t1 f /\
+     F.attrs f = enc_attrs kc vc (fattrs (emb f)) /\ attrs_known K V (fattrs (emb f)) /\
+     excluded (dict_query d xn xt) (emb f) = F.excluded_spec (window_query lay t w b xt) f) ->
+  Forall (entry_known K V) d -> Forall file_ok (map emb fs) ->
+  closest_model tp fill (map emb fs) (dict_query d xn xt) t =
+  t2o (tree_closest lay fs (exact_name tp fill (map emb fs) t) true w b xt t).
+Proof. exact dict_composed_is_flat_thm. Qed.
+
 (* non-vacuity of the extension.
    T1: /R/{year}/{month}/{day}/..., P = 1 day, t = 2018-03-02 00:00 exactly on a directory boundary.  Walk order:
        [0] 2018/02/27 10:00-11:00 (three directories before: no candidate)
@@ -425,6 +527,100 @@ Proof.
   repeat split; vm_compute; reflexivity.
 Qed.
 
+(* non-vacuity of extension 2.  /R/{sat}/{year}{month}{day}T{hour}_{ver}.dat (P = 366 days), four files:
+   [0] metop v2 00-03   [1] noaa v2 04-05   [2] noaa v1 06-09   [3] metop v1 10-11.
+   filters {"!sat": "metop", "!ver": "v1"} and the same dict with the keys swapped: [0] is forbidden by the sat entry
+   and allowed by the ver entry, [2] the other way round -- neither is a candidate under either order (an evaluation in
+   which only the LAST entry decides would let [0] pass under the first order and [2] under the second); asked at 01:00
+   ([0] covers it) and at 07:00 ([2] covers it) the model answers [1], the only file passing both entries, and the
+   checker rejects [0] and [2]; a white list with a black list; lists of values; all platforms forbidden: None *)
+Example nonvacuous_filters :
+  let h := fun x => ymdh 2018 1 1 x in
+  let sat := s2l "sat" in let ver := s2l "ver" in
+  let tp := [Lit (s2l "/R/"); U sat (Some UAny); Lit (s2l "/"); T false FYear; T false FMonth; T false FDay;
+             Lit (s2l "T"); T false FHour; Lit (s2l "_"); U ver (Some UAny); Lit (s2l ".dat")] in
+  let at_ := fun s v : string => [(sat, s2l s); (ver, s2l v)] in
+  let f0 := File (s2l "/R/metop/20180101T00_v2.dat") (h 0) (h 3) (at_ "metop"%string "v2"%string) in
+  let f1 := File (s2l "/R/noaa/20180101T04_v2.dat") (h 4) (h 5) (at_ "noaa"%string "v2"%string) in
+  let f2 := File (s2l "/R/noaa/20180101T06_v1.dat") (h 6) (h 9) (at_ "noaa"%string "v1"%string) in
+  let f3 := File (s2l "/R/metop/20180101T10_v1.dat") (h 10) (h 11) (at_ "metop"%string "v1"%string) in
+  let fs := [f0; f1; f2; f3] in
+  let e_sat := (true, sat, [s2l "metop"]) in let e_ver := (true, ver, [s2l "v1"]) in
+  let q1 := dict_query [e_sat; e_ver] [] [] in let q2 := dict_query [e_ver; e_sat] [] [] in
+  let P := Some (366 * us_day) in
+  Permutation [e_sat; e_ver] [e_ver; e_sat] /\ period_of tp = P /\ Forall file_ok fs /\
+  name_hyp tp [] fs (h 1) /\ name_hyp tp [] fs (h 7) /\
+  entry_ok (fattrs f0) e_sat = false /\ entry_ok (fattrs f0) e_ver = true /\
+  entry_ok (fattrs f2) e_sat = true /\ entry_ok (fattrs f2) e_ver = false /\
+  passes q1 f0 = false /\ passes q2 f0 = false /\ passes q1 f2 = false /\ passes q2 f2 = false /\
+  passes q1 f1 = true /\ passes q1 f3 = false /\
+  closest_model tp [] fs q1 (h 1) = Some 1%nat /\ closest_model tp [] fs q2 (h 1) = Some 1%nat /\
+  closest_model tp [] fs q1 (h 7) = Some 1%nat /\ closest_model tp [] fs q2 (h 7) = Some 1%nat /\
+  closest_ok fs q1 P (h 1) (Some 0%nat) = false /\ closest_ok fs q2 P (h 7) (Some 2%nat) = false /\
+  closest_ok fs q1 P (h 1) (Some 1%nat) = true /\
+  closest_model tp [] fs (dict_query [(false, sat, [s2l "noaa"]); e_ver] [] []) (h 7) = Some 1%nat /\
+  closest_model tp [] fs (dict_query [(true, ver, [s2l "v2"]); (false, sat, [s2l "noaa"; s2l "x1"])] [] []) (h 1) = Some 2%nat /\
+  closest_model tp [] fs (dict_query [(true, sat, [s2l "noaa"; s2l "metop"]); e_ver] [] []) (h 1) = None.
+Proof.
+  cbv zeta.
+  split; [apply perm_swap|].
+  split; [vm_compute; reflexivity|].
+  split; [apply all_okb; vm_compute; reflexivity|].
+  split; [apply name_hypb_iff; vm_compute; reflexivity|].
+  split; [apply name_hypb_iff; vm_compute; reflexivity|].
+  repeat split; vm_compute; reflexivity.
+Qed.
+
+(* non-vacuity of the numbering: the pools of the correspondence ({sat}: noaa metop x1 n19, {ver}: v1 v2 v3) are
+   prefix-free; a dict with a white and two black entries, a tree under /R/{sat}/ in C01's vocabulary and its flat
+   listing meet every hypothesis of dict_composed_is_flat; both models answer [1] *)
+Example nonvacuous_numbering :
+  let sat := s2l "sat" in let ver := s2l "ver" in
+  let ps := [(sat, [s2l "noaa"; s2l "metop"; s2l "x1"; s2l "n19"]); (ver, [s2l "v1"; s2l "v2"; s2l "v3"])] in
+  let kc := pool_kc ps in let vc := pool_vc ps in let K := pool_K ps in let V := pool_V ps in
+  let d := [(true, sat, [s2l "metop"]); (false, ver, [s2l "v2"; s2l "v3"]); (true, ver, [s2l "v1"])] in
+  let h := fun x => ymdh 2018 1 1 x in
+  let tp := [Lit (s2l "/R/"); U sat (Some UAny); Lit (s2l "/"); T false FYear; T false FMonth; T false FDay;
+             Lit (s2l "T"); T false FHour; Lit (s2l "_"); U ver (Some UAny); Lit (s2l ".dat")] in
+  let lay := [F.CPat []] in
+  let at_ := fun s v : string => [(sat, s2l s); (ver, s2l v)] in
+  let flat := [File (s2l "/R/metop/20180101T00_v2.dat") (h 0) (h 3) (at_ "metop"%string "v2"%string);
+               File (s2l "/R/noaa/20180101T04_v2.dat") (h 4) (h 5) (at_ "noaa"%string "v2"%string);
+               File (s2l "/R/noaa/20180101T06_v1.dat") (h 6) (h 9) (at_ "noaa"%string "v1"%string)] in
+  let fs := [F.mkfile 0 (h 0) (h 3) (h 0) [(0, 1); (1, 1)] false; F.mkfile 1 (h 4) (h 5) (h 4) [(0, 0); (1, 1)] false;
+             F.mkfile 2 (h 6) (h 9) (h 6) [(0, 0); (1, 0)] false] in
+  let emb := fun f : F.file => nth (Z.to_nat (F.fid f)) flat (File [] 0 0 []) in
+  let zd := map (enc_entry kc vc) d in
+  pools_ok ps = true /\ kc ver = 1 /\ vc sat (s2l "x1") = 2 /\
+  zsplit zd = ([(1, [1; 2])], [(0, [1]); (1, [0])]) /\
+  Forall (entry_known K V) d /\ map emb fs = flat /\
+  fields_of_layout tp lay /\ tree_hyps lay fs /\ window_ok lay (h 1) /\
+  (forall f, In f fs ->
+     ft0 (emb f) = F.t0 f /\ ft1 (emb f) = F.t1 f /\
+     F.attrs f = enc_attrs kc vc (fattrs (emb f)) /\ attrs_known K V (fattrs (emb f)) /\
+     excluded (dict_query d [] []) (emb f) =
+     F.excluded_spec (window_query lay (h 1) (fst (zsplit zd)) (snd (zsplit zd)) []) f) /\
+  Forall file_ok (map emb fs) /\
+  closest_model tp [] (map emb fs) (dict_query d [] []) (h 1) = Some 1%nat /\
+  tree_closest lay fs None true (fst (zsplit zd)) (snd (zsplit zd)) [] (h 1) = TFile 1.
+Proof.
+  cbv zeta.
+  split; [vm_compute; reflexivity|]. split; [vm_compute; reflexivity|]. split; [vm_compute; reflexivity|].
+  split; [vm_compute; reflexivity|].
+  split; [repeat first [apply Forall_nil | apply Forall_cons | split]; vm_compute; tauto|].
+  split; [vm_compute; reflexivity|].
+  split; [apply fields_of_layout_decided_thm; vm_compute; reflexivity|].
+  split; [apply Proofs.C16_tree.tree_hyps_decided; vm_compute; reflexivity|].
+  split; [apply window_okb_iff; vm_compute; reflexivity|].
+  split.
+  { intros f [<-|[<-|[<-|[]]]];
+      (split; [vm_compute; reflexivity|]); (split; [vm_compute; reflexivity|]); (split; [vm_compute; reflexivity|]);
+      (split; [|vm_compute; reflexivity]);
+      repeat first [apply Forall_nil | apply Forall_cons | split]; vm_compute; tauto. }
+  split; [apply all_okb; vm_compute; reflexivity|].
+  split; vm_compute; reflexivity.
+Qed.
+
 Print Assumptions closest_ok_iff_spec.
 Print Assumptions model_meets_spec.
 Print Assumptions none_iff_no_candidate.
@@ -457,3 +653,12 @@ Print Assumptions getitem_string.
 Print Assumptions getitem_with_filters.
 Print Assumptions getitem_reads_closest.
 Print Assumptions getitem_meets_spec.
+Print Assumptions all_filters_apply.
+Print Assumptions passes_every_list.
+Print Assumptions filter_order_irrelevant.
+Print Assumptions dict_order_irrelevant.
+Print Assumptions tree_all_filters_apply.
+Print Assumptions tree_filter_order_irrelevant.
+Print Assumptions encoded_filters_agree.
+Print Assumptions pool_numbering_ok.
+Print Assumptions dict_composed_is_flat.
